@@ -10,7 +10,7 @@ import (
 
 // HangTimeout is the wall-clock watchdog for one execution of run. Executions take microseconds
 // to milliseconds; only a call that never returns trips it. It decides nothing else.
-var HangTimeout = 10 * time.Second
+var HangTimeout = 30 * time.Second
 
 // Hooks are the real pieces of cmd/pql under test.
 type Hooks struct {
